@@ -1797,7 +1797,8 @@ theorem World.backfill_spec (w : World) (i : Nat) (v : Iov) (e : Nat × BackrefI
     ∃ w' v', w.backfill i (some e) src = some w' ∧ w'.iov i = some v' ∧ IovInv w' v' ∧
       absCells w' v' = fillCells e.1 (absCells w v) src ∧
       v'.backrefs = v.backrefs.filter (fun x => decide (x.1 ≠ e.1)) ∧ v'.slices = v.slices ∧
-      v'.consumedSize = v.consumedSize ∧ v'.logicalSize = v.logicalSize ∧ w'.exts = w.exts := by
+      v'.consumedSize = v.consumedSize ∧ v'.logicalSize = v.logicalSize ∧ w'.exts = w.exts ∧
+      (∀ x ∈ v.slices.take (e.2.sliceIndex - v.consumedSlices), w'.sliceBytes x = w.sliceBytes x) := by
   obtain ⟨key, info⟩ := e
   have hb := hinv.br_ok _ he
   obtain ⟨target, k, hget, hreg, hle⟩ := hb.slice
@@ -1825,8 +1826,22 @@ theorem World.backfill_spec (w : World) (i : Nat) (v : Iov) (e : Nat × BackrefI
       anchors_sum := hinv.anchors_sum, cache_fresh := hinv.cache_fresh
       br_ok := fun x hx => (hinv.br_ok x (List.mem_filter.mp hx).1).congr rfl rfl rfl
       br_sorted := hinv.br_sorted.filter _ }
-  refine ⟨wf, v', hres, ?_, hinv', ?_, rfl, rfl, rfl, rfl, rfl⟩
+  refine ⟨wf, v', hres, ?_, hinv', ?_, rfl, rfl, rfl, rfl, rfl, ?_⟩
   · exact World.iov_setIov w i (some v')
+  rotate_left
+  · intro x hx
+    have hsplit := slices_split v.slices _ target hget
+    have hord := hinv.ordered
+    unfold SlicesOrdered at hord
+    rw [hsplit, List.pairwise_append, List.pairwise_cons] at hord
+    obtain ⟨_, _, hpre⟩ := hord
+    apply sliceBytes_write_disjoint w wf k (target.off + info.begin) src x rfl rfl
+    intro c hc
+    by_cases hck : c = k
+    · right; left
+      have := hpre x hx target (by simp) c hc (by rw [hreg, hck])
+      omega
+    · left; exact hck
   · -- contents
     have hsplit := slices_split v.slices _ target hget
     generalize hj : info.sliceIndex - v.consumedSlices = j at hget hsplit
@@ -2543,5 +2558,191 @@ theorem ledger_byte (ops : List Op) : ∀ (l : List Cell) (rs : List Ret), Op.cl
       simp only [ledger]
       apply ih _ _ (fun hm => hnc (by simp [hm]))
       exact ledgerStep_byte l op r (fun e => hnc (by simp [e])) j b h
+
+/-! ### Heap-level frame: which memory an operation may write -/
+
+/-- What an operation on the iovec may do to memory: lend new caller buffers, and write one block
+of bytes (a `push_copy` into freshly allocated arena memory). -/
+structure MemStep (w w' : World) (v : Iov) : Prop where
+  exts : ∃ extra, w'.exts = w.exts ++ extra
+  heap : w'.heap = w.heap ∨ ∃ len src, src.length = len ∧
+    w'.heap = w.heap.write (alloc w.tun v.arena w.next len).2.2.1 (alloc w.tun v.arena w.next len).2.2.2 src
+
+theorem MemStep.refl (w : World) (v : Iov) : MemStep w w v := ⟨⟨[], by simp⟩, Or.inl rfl⟩
+
+theorem MemStep.of_eq {w w' : World} {v : Iov} (hh : w'.heap = w.heap) (he : w'.exts = w.exts) : MemStep w w' v :=
+  ⟨⟨[], by simp [he]⟩, Or.inl hh⟩
+
+/-- A memory step leaves the bytes of every slice of the iovec alone. -/
+theorem MemStep.frame {w w' : World} {v : Iov} (h : MemStep w w' v) (hinv : IovInv w v) (x : Slice)
+    (hx : x ∈ v.slices) : w'.sliceBytes x = w.sliceBytes x := by
+  have hok := hinv.slices_ok x hx
+  obtain ⟨extra, he⟩ := h.exts
+  unfold World.sliceBytes
+  cases hr : x.region with
+  | ext b =>
+    simp only [he]
+    have h1 := hok.ext b hr
+    have h2 := hok.pos
+    have hb : b < w.exts.length := by
+      rcases Nat.lt_or_ge b w.exts.length with h3 | h3
+      · exact h3
+      · rw [List.getD_eq_getElem?_getD, List.getElem?_eq_none h3] at h1
+        simp at h1; omega
+    simp only [List.getD_eq_getElem?_getD, List.getElem?_append_left hb]
+  | chunk c =>
+    simp only
+    rcases h.heap with hh | ⟨len, src, hl, hh⟩
+    · rw [hh]
+    · rw [hh]
+      obtain ⟨_, _, _, hord⟩ := alloc_facts w v len hinv _ rfl
+      apply Heap.read_write_disjoint
+      by_cases hc : c = (alloc w.tun v.arena w.next len).2.2.1
+      · right; left; exact hord x hx c hr hc
+      · left; exact hc
+
+theorem World.pushCopy_mem (w w' : World) (i : Nat) (v : Iov) (src : List UInt8) (hv : w.iov i = some v)
+    (h : w.pushCopy i src = some w') : MemStep w w' v := by
+  by_cases hne : src = []
+  · subst hne
+    have : w.pushCopy i [] = some w := by unfold World.pushCopy; rw [hv]; rfl
+    rw [this] at h; cases h
+    exact MemStep.refl w v
+  · rw [pushCopy_eq w i v src hv hne] at h
+    split at h
+    · cases h
+    · split at h
+      · cases h
+      · cases h
+        exact ⟨⟨[], by simp⟩, Or.inr ⟨src.length, src, rfl, rfl⟩⟩
+
+theorem World.pushBorrowed_mem (w w' : World) (i : Nat) (s : Slice)
+    (h : w.pushBorrowed i s = some w') : w'.heap = w.heap ∧ w'.exts = w.exts ∧ w'.tun = w.tun ∧ w'.next = w.next := by
+  unfold World.pushBorrowed at h
+  split at h
+  · cases h
+  · split at h
+    · cases h; exact ⟨rfl, rfl, rfl, rfl⟩
+    · split at h
+      · cases h
+      · cases h; exact ⟨rfl, rfl, rfl, rfl⟩
+
+theorem World.extend_mem (i : Nat) : ∀ (ss : List Slice) (w w' : World), w.extend i ss = some w' →
+    w'.heap = w.heap ∧ w'.exts = w.exts := by
+  intro ss
+  induction ss with
+  | nil => intro w w' h; simp only [World.extend, Option.some.injEq] at h; subst h; exact ⟨rfl, rfl⟩
+  | cons s t ih =>
+    intro w w' h
+    simp only [World.extend] at h
+    split at h
+    · exact ih w w' h
+    · split at h
+      · cases h
+      · rename_i w1 hw1
+        obtain ⟨a, b, _, _⟩ := World.pushBorrowed_mem w w1 i s hw1
+        obtain ⟨c, d⟩ := ih w1 w' h
+        exact ⟨c.trans a, d.trans b⟩
+
+theorem MemStep.of_lend {w w1 w' : World} {v : Iov} (extra : List (List UInt8))
+    (h1 : w1 = { w with exts := w.exts ++ extra }) (h : MemStep w1 w' v) : MemStep w w' v := by
+  subst h1
+  obtain ⟨e2, he2⟩ := h.exts
+  refine ⟨⟨extra ++ e2, by rw [he2]; simp⟩, ?_⟩
+  rcases h.heap with hh | ⟨len, src, hl, hh⟩
+  · exact Or.inl hh
+  · exact Or.inr ⟨len, src, hl, hh⟩
+
+/-- Every non-panicking operation other than `backfill` is a memory step. -/
+theorem step_mem (i : Nat) (s s' : State) (op : Op) (r : Ret) (v : Iov) (hv : s.w.iov i = some v)
+    (hi : IovInv s.w v) (hop : ∀ tok src, op ≠ .backfill tok src) (h : step i s op = some (s', r)) :
+    MemStep s.w s'.w v := by
+  cases op with
+  | backfill tok src => exact absurd rfl (hop tok src)
+  | pushCopy src =>
+    simp only [step, Option.map_eq_some_iff] at h
+    obtain ⟨w', hw, he⟩ := h
+    cases he
+    exact World.pushCopy_mem s.w w' i v src hv hw
+  | pushBorrowed b =>
+    simp only [step, Option.map_eq_some_iff] at h
+    obtain ⟨w', hw, he⟩ := h
+    cases he
+    obtain ⟨a, b', _, _⟩ := World.pushBorrowed_mem _ w' i _ hw
+    exact MemStep.of_lend [b.pre ++ b.bs ++ b.post] rfl (MemStep.of_eq a b')
+  | push b =>
+    simp only [step, Option.map_eq_some_iff] at h
+    obtain ⟨w', hw, he⟩ := h
+    cases he
+    apply MemStep.of_lend [b.pre ++ b.bs ++ b.post] (w1 := (s.w.lend b).1) rfl
+    rcases World.push_eq (s.w.lend b).1 i v (s.w.lend b).2 (by simpa using hv) with hp | hp
+    · rw [hp] at hw
+      exact World.pushCopy_mem _ w' i v _ (by simpa using hv) hw
+    · rw [hp] at hw
+      obtain ⟨a, b', _, _⟩ := World.pushBorrowed_mem _ w' i _ hw
+      exact MemStep.of_eq a b'
+  | extend bs =>
+    simp only [step, Option.map_eq_some_iff] at h
+    obtain ⟨w', hw, he⟩ := h
+    cases he
+    obtain ⟨a, b'⟩ := World.extend_mem i _ _ w' hw
+    exact MemStep.of_lend _ (lendAll_fst s.w bs) (MemStep.of_eq a b')
+  | registerPatch pat =>
+    simp only [step, Option.map_eq_some_iff] at h
+    obtain ⟨⟨w', b⟩, hw, he⟩ := h
+    cases he
+    by_cases hne : pat = []
+    · subst hne
+      have : s.w.registerPatch i [] = some (s.w, none) := by unfold World.registerPatch; rfl
+      rw [this] at hw; cases hw
+      exact MemStep.refl _ _
+    · obtain ⟨w1, v1, h1, h2, _, _, _, _, _, _, _, _, _, _, _, ⟨pre, last, c, hl1, _, _⟩, _, _⟩ :=
+        World.pushCopy_spec s.w i v pat hv hi hne
+      have hpe : pat.isEmpty = false := by cases pat with | nil => exact absurd rfl hne | cons _ _ => rfl
+      have hlast : v1.slices.getLast? = some last := by rw [hl1]; simp
+      rw [registerPatch_eq s.w w1 i v1 pat last hpe h1 h2 hlast] at hw
+      have hm := World.pushCopy_mem s.w w1 i v pat hv h1
+      split at hw
+      · cases hw
+      · cases hw
+        exact ⟨hm.exts, hm.heap⟩
+  | consume c =>
+    obtain ⟨v', h1, _⟩ := step_consume_exact i s v c hv hi
+    rw [h1] at h; cases h
+    exact MemStep.of_eq rfl rfl
+  | pop =>
+    simp only [step, hv] at h
+    obtain ⟨v', h1, _⟩ := World.consume_spec s.w i v 1 hv hi
+    rw [h1] at h
+    split at h
+    · rename_i heq
+      cases h
+      simp only [Option.some.injEq, Prod.mk.injEq] at heq
+      rw [← heq.1]
+      exact MemStep.of_eq rfl rfl
+    · cases h
+  | advance c =>
+    obtain ⟨v', h1⟩ := step_advance_exact i s v c hv hi
+    rw [h1] at h; cases h
+    exact MemStep.of_eq rfl rfl
+  | readInto room =>
+    obtain ⟨w', v', h1, _, h3, _⟩ := World.readInto_spec i (room + 2) s.w v room [] hv hi (by omega)
+    simp only [step, h1, Option.map_some, Option.some.injEq, Prod.mk.injEq] at h
+    obtain ⟨rfl, _⟩ := h
+    exact MemStep.of_eq h3.heap h3.exts
+  | clear =>
+    have h1 : s.w.clear i = some (s.w.setIov i (some { Iov.empty with arena := v.arena })) := by
+      unfold World.clear; rw [hv]
+    simp only [step, h1, Option.map_some, Option.some.injEq, Prod.mk.injEq] at h
+    obtain ⟨rfl, _⟩ := h
+    exact MemStep.of_eq rfl rfl
+  | flush =>
+    simp only [step, hv, Option.some.injEq, Prod.mk.injEq] at h
+    obtain ⟨rfl, _⟩ := h
+    exact MemStep.of_eq rfl rfl
+  | reserve k =>
+    simp only [step, hv, Option.some.injEq, Prod.mk.injEq] at h
+    obtain ⟨rfl, _⟩ := h
+    exact MemStep.of_eq rfl rfl
 
 end Woodpile.Iovec
